@@ -216,7 +216,9 @@ def t_rename(tree):
             if isinstance(n, (ast.Import, ast.ImportFrom)):
                 imported |= {(a.asname or a.name).split('.')[0]
                              for a in n.names}
-        locs = stored - params - comp_bound - imported
+        # (comprehension variables are renamed too: every occurrence of the
+        # name in the function changes, so scoping is unaffected)
+        locs = stored - params - imported
         ren = {x: x + '_rn' for x in locs}
         for n in ast.walk(f):
             if isinstance(n, ast.Name) and n.id in ren:
@@ -317,7 +319,207 @@ def t_extract(tree):
             cls.body.insert(cls.body.index(f) + 1, helper)
 
 
+def _fn_names(f):
+    return {n.id for n in ast.walk(f) if isinstance(n, ast.Name)} | {
+        a.arg for a in ast.walk(f) if isinstance(a, ast.arg)}
+
+
+def t_comp2loop(tree):
+    """X = [e for v in S if c]  ->  X = []; for v in S: if c: X.append(e)
+    (statement-level list comprehensions with one generator whose variables
+    occur nowhere else in the function)."""
+    for f in [n for n in ast.walk(tree) if isinstance(n, FN)]:
+        names_count = {}
+        for n in ast.walk(f):
+            if isinstance(n, ast.Name):
+                names_count[n.id] = names_count.get(n.id, 0) + 1
+
+        def fn(blk, owner, field, f=f):
+            out = []
+            for s in blk:
+                if isinstance(s, ast.Assign) and len(s.targets) == 1 and \
+                        isinstance(s.targets[0], ast.Name) and isinstance(
+                            s.value, ast.ListComp) and len(
+                            s.value.generators) == 1 and not \
+                        s.value.generators[0].is_async:
+                    g = s.value.generators[0]
+                    tv = {t.id for t in ast.walk(g.target)
+                          if isinstance(t, ast.Name)}
+                    inside = {}
+                    for n in ast.walk(s.value):
+                        if isinstance(n, ast.Name):
+                            inside[n.id] = inside.get(n.id, 0) + 1
+                    x = s.targets[0].id
+                    if all(names_count.get(v, 0) == inside.get(v, 0)
+                           for v in tv) and x not in inside and not any(
+                            isinstance(n, (ast.Lambda, ast.ListComp,
+                                           ast.GeneratorExp, ast.SetComp,
+                                           ast.DictComp, ast.NamedExpr))
+                            for n in ast.walk(s.value) if n is not s.value):
+                        app = ast.Expr(value=ast.Call(func=ast.Attribute(
+                            value=ast.Name(id=x, ctx=ast.Load()),
+                            attr='append', ctx=ast.Load()),
+                            args=[s.value.elt], keywords=[]))
+                        body = [app]
+                        for c in reversed(g.ifs):
+                            body = [ast.If(test=c, body=body, orelse=[])]
+                        out.append(ast.Assign(targets=s.targets,
+                                              value=ast.List(elts=[],
+                                                             ctx=ast.Load()),
+                                              lineno=s.lineno))
+                        out.append(ast.For(target=g.target, iter=g.iter,
+                                           body=body, orelse=[],
+                                           lineno=s.lineno))
+                        continue
+                out.append(s)
+            return out
+        map_blocks(f, fn)
+
+
+def t_loop2comp(tree):
+    """X = []; for v in S: [if c:] X.append(e)  ->  X = [e for v in S if c]
+    when the loop variables are used nowhere else in the function."""
+    for f in [n for n in ast.walk(tree) if isinstance(n, FN)]:
+        names_count = {}
+        for n in ast.walk(f):
+            if isinstance(n, ast.Name):
+                names_count[n.id] = names_count.get(n.id, 0) + 1
+
+        def fn(blk, owner, field, f=f):
+            out = []
+            i = 0
+            while i < len(blk):
+                s = blk[i]
+                nxt = blk[i + 1] if i + 1 < len(blk) else None
+                done = False
+                if isinstance(s, ast.Assign) and len(s.targets) == 1 and \
+                        isinstance(s.targets[0], ast.Name) and isinstance(
+                            s.value, ast.List) and not s.value.elts and \
+                        isinstance(nxt, ast.For) and not nxt.orelse and len(
+                            nxt.body) == 1:
+                    x = s.targets[0].id
+                    inner = nxt.body[0]
+                    ifs = []
+                    while isinstance(inner, ast.If) and not inner.orelse \
+                            and len(inner.body) == 1:
+                        ifs.append(inner.test)
+                        inner = inner.body[0]
+                    if isinstance(inner, ast.Expr) and isinstance(
+                            inner.value, ast.Call) and isinstance(
+                            inner.value.func, ast.Attribute) and \
+                            inner.value.func.attr == 'append' and isinstance(
+                                inner.value.func.value, ast.Name) and \
+                            inner.value.func.value.id == x and len(
+                                inner.value.args) == 1 and not \
+                            inner.value.keywords:
+                        tv = {t.id for t in ast.walk(nxt.target)
+                              if isinstance(t, ast.Name)}
+                        inside = {}
+                        for n in ast.walk(nxt):
+                            if isinstance(n, ast.Name):
+                                inside[n.id] = inside.get(n.id, 0) + 1
+                        elt = inner.value.args[0]
+                        uses_x = sum(1 for n in ast.walk(nxt) if isinstance(
+                            n, ast.Name) and n.id == x)
+                        if all(names_count.get(v, 0) == inside.get(v, 0)
+                               for v in tv) and uses_x == 1 and not any(
+                                isinstance(n, (ast.Await, ast.Yield,
+                                               ast.NamedExpr))
+                                for n in ast.walk(nxt)) and all(
+                                isinstance(t, ast.Name) or isinstance(
+                                    t, (ast.Tuple, ast.Store, ast.Load))
+                                for t in ast.walk(nxt.target)):
+                            comp = ast.ListComp(elt=elt, generators=[
+                                ast.comprehension(target=nxt.target,
+                                                  iter=nxt.iter, ifs=ifs,
+                                                  is_async=0)])
+                            out.append(ast.Assign(targets=s.targets,
+                                                  value=comp,
+                                                  lineno=s.lineno))
+                            i += 2
+                            done = True
+                if not done:
+                    out.append(s)
+                    i += 1
+            return out
+        map_blocks(f, fn)
+
+
+def t_ternary(tree):
+    """if c: x = a  else: x = b   ->   x = a if c else b   (same simple
+    target, single statements)."""
+    def fn(blk, owner, field):
+        out = []
+        for s in blk:
+            if isinstance(s, ast.If) and len(s.body) == 1 and len(
+                    s.orelse) == 1 and all(
+                    isinstance(b, ast.Assign) and len(b.targets) == 1
+                    and isinstance(b.targets[0], ast.Name)
+                    for b in (s.body[0], s.orelse[0])) and \
+                    s.body[0].targets[0].id == s.orelse[0].targets[0].id \
+                    and not (isinstance(owner, ast.If) and field == 'orelse'
+                             and len(blk) == 1):
+                out.append(ast.Assign(
+                    targets=s.body[0].targets, value=ast.IfExp(
+                        test=s.test, body=s.body[0].value,
+                        orelse=s.orelse[0].value), lineno=s.lineno))
+            else:
+                out.append(s)
+        return out
+    map_blocks(tree, fn)
+
+
+def t_unternary(tree):
+    """x = a if c else b  ->  if c: x = a  else: x = b"""
+    def fn(blk, owner, field):
+        out = []
+        for s in blk:
+            if isinstance(s, ast.Assign) and len(s.targets) == 1 and \
+                    isinstance(s.targets[0], ast.Name) and isinstance(
+                        s.value, ast.IfExp):
+                v = s.value
+                out.append(ast.If(test=v.test, body=[ast.Assign(
+                    targets=[ast.Name(id=s.targets[0].id, ctx=ast.Store())],
+                    value=v.body, lineno=s.lineno)], orelse=[ast.Assign(
+                        targets=[ast.Name(id=s.targets[0].id,
+                                          ctx=ast.Store())],
+                        value=v.orelse, lineno=s.lineno)]))
+            else:
+                out.append(s)
+        return out
+    for f in [n for n in ast.walk(tree) if isinstance(n, FN)]:
+        map_blocks(f, fn)
+
+
+class UnAug(ast.NodeTransformer):
+    """x += e -> x = x + e  (plain names and attribute chains of names)."""
+
+    def visit_AugAssign(self, node):
+        t = node.target
+
+        def simple(e):
+            return isinstance(e, ast.Name) or (
+                isinstance(e, ast.Attribute) and simple(e.value))
+        if not simple(t) or not isinstance(node.op, (ast.Add, ast.Sub)):
+            return node
+        # only counters (`+= 1`): for lists `x += y` mutates in place and
+        # `x = x + y` does not
+        if not (isinstance(node.value, ast.Constant) and isinstance(
+                node.value.value, (int, float))):
+            return node
+        import copy
+        load = copy.deepcopy(t)
+        for n in ast.walk(load):
+            if hasattr(n, 'ctx'):
+                n.ctx = ast.Load()
+        return ast.Assign(targets=[t], value=ast.BinOp(
+            left=load, op=node.op, right=node.value), lineno=node.lineno)
+
+
 T = {
+    'comp2loop': t_comp2loop, 'loop2comp': t_loop2comp,
+    'ternary': t_ternary, 'unternary': t_unternary,
+    'unaug': lambda t: UnAug().visit(t),
     'flip': lambda t: Flip().visit(t),
     'notforms': lambda t: NotForms().visit(t),
     'demorgan': lambda t: DeMorgan().visit(t),
